@@ -96,3 +96,37 @@ Example C10_example_race :
               AStart 2 rv :: e2_rs 2 3 ++ AStart 3 rv :: e2_rs 3 1) = Some s /\
     get_thread (threads s) 3 = Some th3 /\ t_resp th3 = Some (RErr ERevertOccurring) /\ v_revs s = [0].
 Proof. vm_compute. eexists. eexists. repeat split. Qed.
+
+(* ---- cancellation of a request's context (ACancel / AResumeCancelled) ------------------------------------------------ *)
+(* a revert request that waits for its account locks and whose context is done gives up: it gives the revert
+   reservation back and nothing is stored -- the transaction can still be reverted by a later request *)
+Theorem C10_cancelled_releases_revert : forall s t s', reachable s -> step s (AResumeCancelled t) = Some s' ->
+  exists th, get_thread (threads s) t = Some th /\
+    v_revs s' = (match rq_kind (t_req th) with KRevert => remove_nat (rq_revert (t_req th)) (v_revs s) | _ => v_revs s end) /\
+    persisted s' = persisted s.
+Proof. exact e2_cancelled_releases_rev. Qed.
+Print Assumptions C10_cancelled_releases_revert.
+
+(* it held the reservation itself, nobody holds it afterwards, and no entry on disk or in flight reverts the target *)
+Theorem C10_cancelled_revert_fresh : forall s t s', reachable s -> step s (AResumeCancelled t) = Some s' ->
+  exists th, get_thread (threads s) t = Some th /\ (rq_kind (t_req th) = KRevert ->
+       In (rq_revert (t_req th)) (v_revs s) /\ ~ In (rq_revert (t_req th)) (v_revs s') /\
+       forall x, In x (persisted s' ++ inflight s') -> e_reverts x <> Some (rq_revert (t_req th))).
+Proof. exact e2_cancelled_rev_fresh. Qed.
+Print Assumptions C10_cancelled_revert_fresh.
+
+(* non-vacuity: transaction 1 is on disk; revert request 3 of it holds the reservation and queues behind request 2;
+   cancelled, it answers [ELockCancelled] and the reservation table is empty; the new revert request 4 reverts
+   transaction 1: one revert entry *)
+Example C10_cancel_example :
+  exists s0 th0 s1 s th3 th4,
+    run init e2_cancel_rev_prefix = Some s0 /\ get_thread (threads s0) 3 = Some th0 /\ t_pc th0 = PEnqueued /\
+    v_revs s0 = [1] /\
+    run init (e2_cancel_rev_prefix ++ [ACancel 3; AResumeCancelled 3]) = Some s1 /\
+    v_revs s1 = [] /\ persisted s1 = persisted s0 /\
+    run init (e2_cancel_rev_prefix ++ [ACancel 3; AResumeCancelled 3] ++ e2_cancel_rev_retry) = Some s /\
+    get_thread (threads s) 3 = Some th3 /\ get_thread (threads s) 4 = Some th4 /\
+    t_resp th3 = Some (RErr ELockCancelled) /\ t_resp th4 = Some (ROk (Some 3)) /\
+    map (fun e => (e_owner e, e_reverts e)) (persisted s) = [(0, None); (1, None); (2, None); (4, Some 1)] /\
+    v_revs s = [].
+Proof. exact e2_cancel_rev_then_retry. Qed.
